@@ -193,9 +193,7 @@ theorem count_kindName_keys {op : Op} (hwf : OpWF op) (hp : PlainOp op) (k : Kin
   have h1 : op.labels.count k.name = 0 := by
     rw [List.count_eq_zero]
     intro hm
-    rcases hp.labels _ hm with h | h
-    · exact hk1 h
-    · exact hk2 h
+    exact hp.labels _ hm (by cases k <;> decide)
   have h3 : op.parseQRegTypes ≠ k.name := by
     rcases parse_cases hwf hp with ⟨_, b⟩ | ⟨_, b⟩ | ⟨_, b⟩ | ⟨_, b⟩ | ⟨_, b⟩ | ⟨_, b⟩ <;> rw [b]
     · exact fun e => hk3.1 e.symm
@@ -486,7 +484,7 @@ theorem mem_of_countP_eq {l1 l2 : List Op} (h : ∀ p : Op → Bool, l1.countP p
     exact this ▸ ha
 
 theorem plain_oneQubit (k : Kind) (r : Reg) : PlainOp' (Op.oneQubit k r) :=
-  { labels := by intro l hl; simp [Op.oneQubit] at hl; exact Or.inl hl
+  { labels := by intro l hl; simp [Op.oneQubit] at hl; subst hl; decide
     arity := by simp [Op.oneQubit]
     inner_base := by intro k' hk'; simp [Op.oneQubit] at hk' }
 
